@@ -166,6 +166,69 @@ fn check(ast: &Ast, vars: &[(&'static str, RV)], ci: usize, st: &mut Stats) {
         }
     }
 
+    // (2b) every typed view of an assignment-free program: the shared form equals the mutable form
+    if !has_asg {
+        macro_rules! typed_pair {
+            ($name:literal, $shared:ident, $mutable:ident) => {{
+                let a = guarded(|| tree.$shared(&c)).map(|r| format!("{:?}", r));
+                let mut cm = c.clone();
+                let b = guarded(|| tree.$mutable(&mut cm)).map(|r| format!("{:?}", r));
+                st.evaluations += 2;
+                match (a, b) {
+                    (Ok(a), Ok(b)) => {
+                        if a != b {
+                            st.violation(mk(concat!("typed-view-differs/", $name), format!("{} (mutable form on a clone)", b), format!("{} (shared form)", a)));
+                            return;
+                        }
+                    },
+                    (Err(p), _) | (_, Err(p)) => {
+                        st.violation(mk("panic", "Ok or Err".into(), format!("panic at {}: {}", p.location, p.message)));
+                        return;
+                    },
+                }
+            }};
+        }
+        typed_pair!("string", eval_string_with_context, eval_string_with_context_mut);
+        typed_pair!("float", eval_float_with_context, eval_float_with_context_mut);
+        typed_pair!("int", eval_int_with_context, eval_int_with_context_mut);
+        typed_pair!("number", eval_number_with_context, eval_number_with_context_mut);
+        typed_pair!("boolean", eval_boolean_with_context, eval_boolean_with_context_mut);
+        typed_pair!("tuple", eval_tuple_with_context, eval_tuple_with_context_mut);
+        typed_pair!("empty", eval_empty_with_context, eval_empty_with_context_mut);
+        st.count("typed-views-compared");
+    }
+
+    // (2c) a variable whose *name* is the program's own source text (set_value accepts any string):
+    // unless the program is that bare identifier, it is never read, so nothing may change
+    if !matches!(ast, Ast::Var(_)) {
+        let mut c3 = c.clone();
+        let named = c3.set_value(src.clone(), EV::Int(77)).is_ok() && c3.set_value(format!(" {} ", src), EV::Int(78)).is_ok();
+        if named {
+            log.lock().unwrap().clear();
+            let a = guarded(|| evalexpr::eval_with_context(&src, &c3));
+            let mut c4 = c3.clone();
+            let b = guarded(|| evalexpr::eval_with_context_mut(&src, &mut c4));
+            st.evaluations += 2;
+            match (a, b) {
+                (Ok(a), Ok(b)) => {
+                    if res_key(&a) != res_key(&imm_str) {
+                        st.violation(mk("variable-named-like-the-source-changes-shared-result", res_key(&imm_str), res_key(&a)));
+                        return;
+                    }
+                    if res_key(&b) != res_key(&mt) {
+                        st.violation(mk("variable-named-like-the-source-changes-mutable-result", res_key(&mt), res_key(&b)));
+                        return;
+                    }
+                },
+                (Err(p), _) | (_, Err(p)) => {
+                    st.violation(mk("panic", "Ok or Err".into(), format!("panic at {}: {}", p.location, p.message)));
+                    return;
+                },
+            }
+            st.count("source-named-variable-contexts");
+        }
+    }
+
     // (3) mutable entry point on a context without variable storage
     log.lock().unwrap().clear();
     let mut ns = NoStore { inner: c.clone() };
